@@ -255,7 +255,9 @@ def run_case(case, ctx):
     try:
         numpy.random.seed((case["sub"] + 1) % (2 ** 31))
         y_b = y[::-1].copy() if n > 1 else y + 1.0
-        ir.fit(X, y_b) if w is None else ir.fit(X, y_b, sample_weight=w)
+        # (with zero weights a resample may consist of zero-weight rows only, which the base regressor refuses:
+        # the refit of this history is done without weights then)
+        ir.fit(X, y_b) if (w is None or zero_w) else ir.fit(X, y_b, sample_weight=w)
         ests2 = ir.estimators_
         for qname in ("float64", "single-row"):
             Q = q[qname]
@@ -277,6 +279,7 @@ def run_case(case, ctx):
         ests = ests2
     except Exception as e:
         ctx.violation(K + "predict/raised-after-refit/%s" % type(e).__name__, str(e)[:150], cfg=cfg)
+        return
     # a hyper-parameter changed after fit does not change what the fitted members predict
     for m2 in (m * 2, max(1, m // 2)):
         ir.set_params(n_estimators=m2)
